@@ -23,24 +23,25 @@ for base in sorted(c11.STATE["targets"]):
         rng.shuffle(lst)
         tried = 0
         for t in lst:
-            donors = [d for d in lst if d["ref"] != t["ref"] and d["path"][:4] == t["path"][:4]]
+            donors = [d for d in lst if d["ref"] != t["ref"] and d["path"][:(2 if t["cls"] == "ParentRef" else 4)] == t["path"][:(2 if t["cls"] == "ParentRef" else 4)]]
             if not donors or tried >= 10:
                 continue
             same = [d for d in donors if d.get("ctx") == t.get("ctx")] or donors
             d = rng.choice(same)
             tried += 1
-            trace = {"base": base, "prelude": None, "norefresh": True,
-                     "pert": {"path": t["path"], "cls": t["cls"], "field": t["field"], "type": t["type"], "kind": "retarget",
-                              "vclass": "plain", "n": 0, "alts": [], "donor": d["path"]},
-                     "env": {"tz": ["UTC", "UTC"], "relative_paths": False},
-                     "entries": ["load_pdx_file", "load_pdx_file"], "orders": [1, 2], "index_pos": ["keep", "keep"],
-                     "clock": [1_700_000_000.0, "none", 0.0]}
-            r = c11.execute(trace)
-            out = [k for k in r["counters"] if k.startswith("outcome_")][0][8:]
-            e = res.setdefault(f"{key[0]}.{key[1]}", {"outcomes": {}, "violations": []})
-            e["outcomes"][out] = e["outcomes"].get(out, 0) + 1
-            for v in r["violations"]:
-                e["violations"].append([base, v["oracle"], v["sig"].get("what") or v["sig"].get("exc"), c11.path_str(t["path"])])
+            for mode in (True, False):
+                trace = {"base": base, "prelude": None, "norefresh": mode,
+                         "pert": {"path": t["path"], "cls": t["cls"], "field": t["field"], "type": t["type"], "kind": "retarget",
+                                  "vclass": "plain", "n": 0, "alts": [], "donor": d["path"]},
+                         "env": {"tz": ["UTC", "UTC"], "relative_paths": False},
+                         "entries": ["load_pdx_file", "load_pdx_file"], "orders": [1, 2], "index_pos": ["keep", "keep"],
+                         "clock": [1_700_000_000.0, "none", 0.0]}
+                r = c11.execute(trace)
+                out = [k for k in r["counters"] if k.startswith("outcome_")][0][8:]
+                e = res.setdefault(f"{key[0]}.{key[1]}" + ("" if mode else "@refresh"), {"outcomes": {}, "violations": []})
+                e["outcomes"][out] = e["outcomes"].get(out, 0) + 1
+                for v in r["violations"]:
+                    e["violations"].append([base, v["oracle"], v["sig"].get("what") or v["sig"].get("exc"), c11.path_str(t["path"])])
 json.dump(res, open(os.path.join(HERE, "retarget_triage.json"), "w"), indent=1, sort_keys=True)
 ok = sorted(k for k, v in res.items() if not v["violations"] and v["outcomes"].get("ok", 0) > 0)
 json.dump(ok, open(os.path.join(HERE, "vsim", "props", "c11_retarget_ok.json"), "w"), indent=1)
